@@ -14,8 +14,27 @@ func H_c01_service_lookup() {
 	case 2:
 		t.Service = &service.Service{}
 		t.Service.Agents = append(t.Service.Agents, &service.AgentService{Name: "x", MagicValue: "0x41414141"})
+		// a registration may spell its magic value with upper-case hex digits or a 0X prefix
+		switch nondet_choice("second-registration", 4) {
+		case 1:
+			t.Service.Agents = append(t.Service.Agents, &service.AgentService{Name: "y", MagicValue: "0xdeadc0de"})
+		case 2:
+			t.Service.Agents = append(t.Service.Agents, &service.AgentService{Name: "y", MagicValue: "0xDEADC0DE"})
+		case 3:
+			t.Service.Agents = append(t.Service.Agents, &service.AgentService{Name: "y", MagicValue: "0XDEADC0DE"})
+		}
 	}
-	magic := int(nondet_u32("magic"))
+	var magic int
+	switch nondet_choice("magic-kind", 4) {
+	case 0:
+		magic = int(nondet_u32("magic"))
+	case 1:
+		magic = 0x41414141
+	case 2:
+		magic = 0xdeadc0de
+	case 3:
+		magic = 0xdeadbeef
+	}
 	exists := t.ServiceAgentExist(magic)
 	a := t.ServiceAgent(magic)
 	verif_assert(exists == (a != nil), "ServiceAgentExist agrees with ServiceAgent")
